@@ -135,5 +135,31 @@ func main() {
 		}
 
 		enum.Strings(gen.URLAlphabet, runlib.Pick(c, 5, 6), all, func(s string) { one("url-strings", s) })
+
+		// Long URLs: every total length from 100 to 140 and around 256, 512,
+		// 1024 and 4096 bytes (fixed-size scratch buffers), the padding in the
+		// path, in the query or in the host.
+		lens := []int{}
+		for l := 100; l <= 140; l++ {
+			lens = append(lens, l)
+		}
+
+		lens = append(lens, 250, 255, 256, 257, 262, 511, 512, 513, 1023, 1024, 1025, 4095, 4096, 4097)
+		for _, l := range lens {
+			for _, where := range []string{"path", "query", "host"} {
+				base := map[string]string{
+					"path":  "https://host.example/",
+					"query": "https://host.example/p?q=",
+					"host":  "https://",
+				}[where]
+				pad := strings.Repeat("p", max(0, l-len(base)-len(".example/x")))
+				text := base + pad
+				if where == "host" {
+					text = base + pad + ".example/x"
+				}
+
+				one("url-long", text)
+			}
+		}
 	})
 }
